@@ -120,6 +120,11 @@ def zero_crossing_rules(chk):
         pre_cat = [e for e in cats if len(e.args[0].items) == 2 and e.args[0].items[0].kind in (K_LIST, K_TUPLE) and e.args[0].items[0].items is not None
                    and len(e.args[0].items[0].items) == 1 and e.args[0].items[0].items[0].has_const() and e.args[0].items[0].items[0].const == 0
                    and "where-index" in e.args[0].items[1].tags]                                  # np.concatenate(([0], indices))
+        # the same prepend with the zero held in a one-element array: np.concatenate((np.zeros(1, dtype=...), indices)) / (np.array([0]), indices)
+        pre_cat += [e for e in cats if e not in pre_cat and len(e.args[0].items) == 2 and e.args[0].items[0].kind == K_ARRAY and
+                    e.args[0].items[0].shape is not None and tuple(e.args[0].items[0].shape) == (LinExpr(1),) and
+                    (e.args[0].items[0].sign == S_ZERO or e.args[0].items[0].f0) and "where-index" in e.args[0].items[1].tags]
+        cat = [e for e in cat if e not in pre_cat]
         srt = [e for e in r.events("mutation", ZC) if e.how == "ndarray.sort"] + \
             [e for e in r.events("lib-call", ZC) if e.name in ("numpy.sort", "numpy.unique") and "where-index" in e.args[0].tags]   # unique: sorted
         okc = len(cat) == 1 and len(cat[0].args[0].items) == 2 and all("where-index" in i.tags for i in cat[0].args[0].items) and \
